@@ -20,6 +20,11 @@ inductive Act where
   | send (name : String) (params : List (String × Val))
   | wait (seconds : Int)
   | repeat_ (inner : Act) (n : Nat)
+  /-- `I reproduce "scenario"`: the given / when steps of that scenario, in order (resolved by
+      the harness from the feature file) -/
+  | seq (inner : List Act)
+  /-- `I reproduce` of a scenario the feature does not contain (`assert False`) -/
+  | unknownScenario
   deriving Inhabited
 
 /-- the predefined `then` steps -/
@@ -76,6 +81,7 @@ def afterStep (kw : Kw) (c : Ctx) : Ctx × Bool :=
     ({ c'' with trace := c''.trace.map (· ++ ms) }, err)
   | .then_ => (c, false)
 
+mutual
 /-- run the body of a given/when step; sub-steps run through `context.execute_steps`, i.e. with
     their own `after_step` hook; when a sub-step does not pass, `execute_steps` raises
     `AssertionError` and the enclosing step is *failed*. `true` = it failed -/
@@ -83,17 +89,31 @@ def runAct (kw : Kw) : Act → Ctx → Ctx × Bool
   | .doNothing, c => (c, false)
   | .send n ps, c => ({ c with world := c.world.modifySlot 0 (extQueue { name := n, data := ps }) }, false)
   | .wait s, c => ({ c with clock := c.clock + s }, false)
-  | .repeat_ inner n, c =>
-    let rec go : Nat → Ctx → Ctx × Bool
-      | 0, c => (c, false)
-      | k+1, c =>
-        match runAct kw inner c with
-        | (c1, true) => (c1, true)
-        | (c1, false) =>
-          match afterStep kw c1 with
-          | (c2, true) => (c2, true)
-          | (c2, false) => go k c2
-    go n c
+  | .repeat_ inner n, c => runRepeat kw inner n c
+  | .seq inner, c => runSeq kw inner c
+  | .unknownScenario, c => (c, true)
+/-- `for _ in range(n): context.execute_steps(keyword + step)` -/
+def runRepeat (kw : Kw) (inner : Act) : Nat → Ctx → Ctx × Bool
+  | 0, c => (c, false)
+  | k+1, c =>
+    match runAct kw inner c with
+    | (c1, true) => (c1, true)
+    | (c1, false) =>
+      match afterStep kw c1 with
+      | (c2, true) => (c2, true)
+      | (c2, false) => runRepeat kw inner k c2
+/-- `for step in scenario.steps: context.execute_steps(keyword + step.name)` — every replayed step
+    runs under the keyword of the `I reproduce` step -/
+def runSeq (kw : Kw) : List Act → Ctx → Ctx × Bool
+  | [], c => (c, false)
+  | a :: rest, c =>
+    match runAct kw a c with
+    | (c1, true) => (c1, true)
+    | (c1, false) =>
+      match afterStep kw c1 with
+      | (c2, true) => (c2, true)
+      | (c2, false) => runSeq kw rest c2
+end
 
 def paramsMatch (e : Event) (ps : List (String × Val)) : Bool :=
   ps.all (fun p => match assocGet p.1 e.data with
